@@ -468,7 +468,12 @@ def p3(ctx: Ctx):
             if not (isinstance(t, ast.Name) and t.id == "int"):
                 problems.append(f"flag {flag} is not parsed as int")
             dflt = rec["kw"].get("default")
-            if not (isinstance(dflt, ast.Constant) and dflt.value == 32):
+            dval = dflt.value if isinstance(dflt, ast.Constant) else None
+            if isinstance(dflt, (ast.Name, ast.Attribute)) and unparse(dflt).split(".")[-1] == "DEFAULT_STR_STORAGE":
+                init_ = py.modules.get("coco/b09/__init__.py")
+                cv_ = init_.assigns.get("DEFAULT_STR_STORAGE") if init_ else None
+                dval = cv_.value if isinstance(cv_, ast.Constant) else None
+            if dval != 32:
                 problems.append(f"flag {flag} does not default to BASIC09's 32 bytes")
         req = rec["kw"].get("required")
         if isinstance(req, ast.Constant) and req.value is True:
@@ -1049,8 +1054,21 @@ def e6(ctx: Ctx):
     w = em.walk("BasicLine", "basic09_text")
     rets = w.returns
     prints_per_return = []
+    from .pyast import resolve_alias as _ra
+
+    def _prints_statements(e: ast.AST, depth: int = 0) -> bool:
+        """The expression contains the text of the statements - directly or through a local computed from it."""
+        for c in ast.walk(e):
+            if isinstance(c, ast.Call) and isinstance(c.func, ast.Attribute) and c.func.attr == "basic09_text" and "_statements" in unparse(c.func.value):
+                return True
+            if isinstance(c, ast.Name) and isinstance(c.ctx, ast.Load) and depth < 3:
+                v_ = _ra(r[1], c)
+                if v_ is not c and _prints_statements(v_, depth + 1):
+                    return True
+        return False
+
     for ret, _, _ in rets:
-        prints_per_return.append(any(isinstance(c, ast.Call) and isinstance(c.func, ast.Attribute) and c.func.attr == "basic09_text" and "_statements" in unparse(c.func.value) for c in ast.walk(ret)))
+        prints_per_return.append(ret.value is not None and _prints_statements(ret.value))
     ok = bool(rets) and all(prints_per_return)
     ctx.ob("BasicLine:statements-on-every-path", ok, "" if ok else "BasicLine.basic09_text drops its statements on a path (label filtering would remove code)", file=r[0].module, line=r[1].lineno)
     # set_is_referenced touches only the flag
